@@ -59,6 +59,7 @@ def corpus_cases():
 
 
 SIDE_PROPS = ("C02", "C03", "C05", "C14")
+TREE_PROPS = ("C09",)
 
 
 def corpus_applicable(pid, d, t):
@@ -99,6 +100,28 @@ def explore(pid, cases, rep, nontrivial, extra_checks=(), keep=None, use_corpus=
                         stats["side_fail_" + nm] += 1
             else:
                 stats["side_not_evaluated"] += 1
+    # C09: the hypotheses of the universal tree theorems (C09_model_tree, C09_hw_tree_acyclic_src), evaluated per
+    # accepted description: where all hold, acyclicity is a THEOREM about the model's netlist (the checker still runs)
+    tree_applies = set()
+    if pid in TREE_PROPS:
+        acc = [i for i, m in enumerate(mods) if isinstance(m, list) and m and m[0] == "ok"]
+        trees = common.run_model([modelio.request(cases[i][0], cmd="tree") for i in acc]) if acc else []
+        names = ["tree_certificate", "id_or_src_routing", "transit_id_or_first_hops_src", "names_sep_req", "names_sep_rsp", "single_attach", "links_typed",
+                 "degrees_fit", "attached_req", "attached_rsp"]
+        for i, sd in zip(acc, trees):
+            if isinstance(sd, list) and sd and sd[0] == "ok":
+                flags = [b is True for b in sd[1:]]
+                if all(flags) and len(flags) == len(names):
+                    stats["side_tree_theorem_applies"] += 1
+                    tree_applies.add(i)
+                elif not flags[0]:
+                    stats["side_tree_not_a_tree"] += 1
+                else:
+                    for nm, b in zip(names, flags):
+                        if not b:
+                            stats["side_tree_fail_" + nm] += 1
+            else:
+                stats["side_tree_not_evaluated"] += 1
     for i, ((d, t), r) in enumerate(zip(cases, res)):
         dist[f"{t.get('topo')}/{d['routing']['route_algo']}/{'nw' if d['network_type'] != 'axi' else 'axi'}"] += 1
         if not r["ok"]:
@@ -171,6 +194,11 @@ def explore(pid, cases, rep, nontrivial, extra_checks=(), keep=None, use_corpus=
                 stats["failures"] += 1
                 if k not in best or desc_size(d) < desc_size(best[k][0]):
                     best[k] = (d, t, msg.replace("~", " "), cid)
+    # where the tree theorem applies and the implementation emitted the model's netlist, a cycle reported by the checker
+    # would contradict a theorem: the tie between model and code is then broken as well
+    for i, out in zip(idx, outs):
+        if i in tree_applies and any(chk[0] == pid and chk[1] for chk in out):
+            stats["side_tree_theorem_contradicted"] += 1
     for k, (d, t, msg, cid) in best.items():
         rep.fail(k if cid == pid else f"{pid}:via-{k}", msg, {"desc": d, "tags": t}, observed=msg,
                  expected="certified checker returns no failure")
